@@ -33,6 +33,15 @@ class Spec(PureLibMixin, BaseSpec):
             "compute_node_semantic_id / _strip_ui_only / descriptor_to_json / resolve_parameters / _preprocessor_metadata are covered by the bounded tier only",
         }
 
+    def call_override(self, I, f, args, kwargs, star):
+        if isinstance(f, O.HFunc) and f.key == (SID, "compute_node_semantic_id"):
+            # abstract here (recursive sanitising of nested metadata): a pure function of the metadata's content
+            pre = I.lift(args[0])
+            self.used_contracts.add(f.key)
+            st = I.st
+            return vstr(z3.Function("NodeSemId", V, core.VSet, core.VMap, z3.StringSort())(pre, ddom(st.h, pre), dval(st.h, pre)))
+        return MISSING
+
     def sorted_with_key(self, I, args, kwargs):
         """sorted(pairs, key=lambda item: item[0]): a function of the *set* of pairs when first components are distinct"""
         st = I.st
@@ -117,6 +126,9 @@ def h_hash_functions(spec):
         canonical = in_dict(I, "canonical")
         n = st.choose(3, "number of nodes")
         nodes = [in_dict(I, f"node{i}") for i in range(n)]
+        for i_, d_ in enumerate(nodes):
+            pm = z3.Select(dval(st.h, d_), vstr("preprocessor_metadata"))
+            st.assume(z3.Or(pm == NONE, pm == in_dict(I, f"pre{i_}")))
         lst = st.new_list(Sq.of(nodes))
         st.assume(z3.Select(ddom(st.h, canonical), vstr("nodes")))
         st.assume(z3.Select(dval(st.h, canonical), vstr("nodes")) == lst)
